@@ -67,7 +67,9 @@ deriving DecidableEq, Repr
 /-- may a column of this family (and dtype label) hold this value -/
 def valOK (fam : DFamily) (dtype : String) (v : PyVal) : Bool :=
   match fam with
-  | .text => v.isStr || dtype == "object"
+  | .text => v.isStr || dtype == "object" ||
+      -- Arrow binary columns hold `bytes`
+      ((dtype == "arrow:binary" || dtype == "arrow:large_binary") && (match v with | .bytes _ => true | _ => false))
   | .categorical => true
   | .numeric => match v with | .int _ => true | .flt _ => true | _ => false
   | .bool => match v with | .bool _ => true | _ => false
